@@ -14,7 +14,7 @@ use sv_parser_parser::{Span, SpanInfo};
 #[derive(Clone, Copy, Debug, PartialEq, Eq, PartialOrd, Ord, Hash)]
 pub struct Call(pub usize);
 
-pub const CALLS: [(&str, &str); 25] = [
+pub const CALLS: [(&str, &str); 27] = [
     ("parse_sv_str ok", "module a; wire w; endmodule\n"),
     ("parse_sv_str broken", "module a; wire ; endmodule\n"),
     ("parse_sv_str incomplete", "module a; endmodule\n)"),
@@ -39,6 +39,8 @@ pub const CALLS: [(&str, &str); 25] = [
     ("parse_sv_str on the reused String: accepted", "module d; reg r; endmodule\n"),
     ("parse_sv_str leaves two nested begin_keywords regions open", "`begin_keywords \"1364-2001\"\n`begin_keywords \"1800-2017\"\nmodule a; endmodule\n"),
     ("parse_sv_str leaves three nested begin_keywords regions open", "`begin_keywords \"1364-1995\"\nmodule a; endmodule\n`begin_keywords \"1800-2017\"\n`begin_keywords \"1364-2001\"\nmodule b; endmodule\n"),
+    ("probe: preprocess_str of `ifdef on a word that only later standards reserve", "`ifdef priority\nx\n`endif\n`ifndef logic\ny\n`endif\n"),
+    ("probe: parse_sv_str of `undef on a word that only later standards reserve", "`undef final\nmodule p; endmodule\n"),
     ("preprocess_str leaves two begin_keywords regions open", "`begin_keywords \"1364-2001\"\n`begin_keywords \"1364-1995\"\nmodule a; endmodule\n"),
 ];
 
@@ -112,7 +114,7 @@ pub fn exec(c: Call) -> String {
     match c.0 {
         2 => parse(false, true, text),
         3 | 4 => parse(true, false, text),
-        5 | 9 | 24 => pp(text),
+        5 | 9 | 24 | 26 => pp(text),
         6 => pp(&text.replace("{SELF}", &self_file().to_string_lossy())),
         13 | 14 => raw(text, |s| sv_parser_parser::sv_parser(s).map(|(rest, t)| (rest.fragment().len(), t)).map_err(|e| format!("{:?}", nom_err_pos(&e)))),
         18 | 19 => with_sbuf(text, |t| pp(t)),
@@ -142,7 +144,7 @@ fn fingerprint() -> (usize, usize, Vec<u8>) {
 
 pub fn build(tier: Tier) -> Check<'static> {
     let mut c = Check::new("C07", tier, "6/C07");
-    c.rule = "alphabet of 25 calls (accepted / rejected / incomplete SystemVerilog and library parses, recursion-limit and self-include failures, sources leaving one, two and three nested `begin_keywords regions open (parser and preprocessor entry points), one starting with `resetall, a pp syntax error after a `define, three probes whose verdict flips if keyword or directive state leaks, the three raw parser entry points on ONE reused buffer, and preprocess_str / parse_sv_str fed from ONE reused String, rejected and accepted); (a) every sequence of length <= 3 (quick) / 4 (thorough) on a fresh OS thread, the last call's complete result compared with the same call on a fresh thread; (b) breadth-first search over the hooked thread state (memo occupancy, directive depth, keyword-version stack) reached by such sequences, every call checked from every reachable state; non-trivial = sequences of length >= 2, distinct by construction".into();
+    c.rule = "alphabet of 27 calls (accepted / rejected / incomplete SystemVerilog and library parses, recursion-limit and self-include failures, sources leaving one, two and three nested `begin_keywords regions open (parser and preprocessor entry points), one starting with `resetall, a pp syntax error after a `define, five probes whose verdict flips if keyword or directive state leaks (in the parser and in the preprocessor grammar), the three raw parser entry points on ONE reused buffer, and preprocess_str / parse_sv_str fed from ONE reused String, rejected and accepted); (a) every sequence of length <= 3 (quick) / 4 (thorough) on a fresh OS thread, the last call's complete result compared with the same call on a fresh thread; (b) breadth-first search over the hooked thread state (memo occupancy, directive depth, keyword-version stack) reached by such sequences, every call checked from every reachable state; non-trivial = sequences of length >= 2, distinct by construction".into();
     c.assumptions = vec![
         "a call's result is rendered without addresses: output text, origin of every byte, define table with origins, tree skeleton with positions, error variant and payload".into(),
         "state merging in (b): memo occupancy is reduced to empty / non-empty and stacks are cut at depth 3; part (a) does not merge anything".into(),
